@@ -12,7 +12,7 @@ COQ_CHECK = ("Model.C02x", "check")
 COQ_FALLBACK = ("Model.C02", "spec_ok")
 COQ_IMPORTS = "From PAV Require Import Model.C02."
 SHARD = 150
-RULE = ("geometries: shapes H,W in 1..9 (all parity combinations, 1xN and Nx1 included), anisotropic pixel scales, unequal origin "
+RULE = ("all-shapes sweep (see exhaustive_subspace), then geometries: shapes H,W in 1..9 (all parity combinations, 1xN and Nx1 included), anisotropic pixel scales, unequal origin "
         "components, random masks. EXACT stream: dyadic scales (also 3/2, 3, 3/4, 5/4), origins that are dyadic multiples of the scale and "
         "query coordinates on a 1/16-pixel lattice over the whole extent plus a one-pixel rim outside it -- every double operation of the "
         "implementation is exact, so pixel-boundary and radius TIES are included and compared exactly. TOLERANCE stream: arbitrary "
